@@ -302,3 +302,132 @@ Proof.
   split; apply under_slcat; try assumption; intros H; apply app_eq_nil in H as [_ H]; discriminate H.
 Qed.
 End CfgE.
+
+(* ------------------------------------------------------------------ comparing normal forms *)
+Definition sl_or_end (u : bytes) : Prop := u = [] \/ exists u', u = sl :: u'.
+
+Lemma noslash_split x : forall y u v, nosep sl x -> nosep sl y -> x ++ u = y ++ v ->
+  sl_or_end u -> sl_or_end v -> x = y /\ u = v.
+Proof.
+  induction x as [|ch x IH]; intros y u v Hx Hy H Hu Hv.
+  - destruct y as [|d y]; [auto|]. exfalso. cbn in H. destruct Hu as [->|[u' ->]]; [discriminate|].
+    injection H as <- _. apply Hy. now left.
+  - destruct y as [|d y].
+    + exfalso. cbn in H. destruct Hv as [->|[v' ->]]; [discriminate|]. injection H as -> _. apply Hx. now left.
+    + cbn in H. injection H as -> H.
+      destruct (IH y u v) as [-> ->]; auto; intros Hin; [apply Hx|apply Hy]; now right.
+Qed.
+
+Lemma slcat_sl_or_end cs : sl_or_end (slcat cs).
+Proof. destruct cs as [|x r]; [now left|right; eexists; reflexivity]. Qed.
+
+Lemma slcat_app_inv a : forall b r, Forall plain a -> Forall plain b -> slcat b = slcat a ++ r ->
+  sl_or_end r -> exists t, b = a ++ t.
+Proof.
+  induction a as [|x a IH]; intros b r Ha Hb H Hr; [exists b; reflexivity|].
+  inversion Ha as [|? ? Hx Ha']; subst. destruct b as [|y b].
+  - cbn in H. discriminate H.
+  - inversion Hb as [|? ? Hy Hb']; subst. cbn [slcat flat_map] in H. fold (slcat b) in H. fold (slcat a) in H.
+    injection H as H. rewrite <- app_assoc in H.
+    destruct (noslash_split y x (slcat b) (slcat a ++ r)) as [-> H2]; auto using plain_noslash, slcat_sl_or_end.
+    { destruct a as [|x2 a2]; [exact Hr|right; eexists; reflexivity]. }
+    destruct (IH b r Ha' Hb' H2 Hr) as [t ->]. exists t. reflexivity.
+Qed.
+
+Lemma slcat_at_or_under a b : a <> [] -> Forall plain a -> Forall plain b ->
+  at_or_under (slcat a) (slcat b) = true -> exists t, b = a ++ t.
+Proof.
+  intros Hne Ha Hb H. apply at_or_under_sub in H; [|apply slcat_not_root; assumption].
+  destruct H as [H|[r H]].
+  - apply (slcat_app_inv a b [] Ha Hb); [rewrite app_nil_r; exact H|now left].
+  - apply (slcat_app_inv a b (sl :: r) Ha Hb H). right. eexists. reflexivity.
+Qed.
+
+Lemma slcat_inj a b : Forall plain a -> Forall plain b -> slcat a = slcat b -> a = b.
+Proof.
+  intros Ha Hb H. destruct (slcat_app_inv a b [] Ha Hb) as [t Ht]; [rewrite app_nil_r; auto|now left|].
+  destruct (slcat_app_inv b a [] Hb Ha) as [t' Ht']; [rewrite app_nil_r; auto|now left|].
+  subst b. rewrite <- app_assoc in Ht'. rewrite <- (app_nil_r a) in Ht' at 1. apply app_inv_head in Ht'.
+  symmetry in Ht'. apply app_eq_nil in Ht' as [-> _]. now rewrite app_nil_r.
+Qed.
+
+(* ------------------------------------------------------------------ MkdirAll's prefixes *)
+Lemma prefixes_acc_in cs : forall cur q, In q (prefixes_acc cur cs) ->
+  exists k, (k < length cs)%nat /\ q = cur ++ slcat (firstn (S k) cs).
+Proof.
+  induction cs as [|x r IH]; intros cur q H; cbn [prefixes_acc] in H; [destruct H|].
+  destruct H as [<-|H].
+  - exists 0%nat. split; [cbn; lia|]. cbn. rewrite app_nil_r. reflexivity.
+  - destruct (IH _ _ H) as (k & Hk & ->). exists (S k). split; [cbn; lia|].
+    rewrite <- app_assoc. reflexivity.
+Qed.
+
+Lemma prefixes_slcat cs q : Forall plain cs -> In q (prefixes (slcat cs)) ->
+  at_or_under q (slcat cs) = true.
+Proof.
+  intros Hp H. destruct cs as [|x0 r0] eqn:Ecs.
+  { cbn in H. destruct H. }
+  rewrite <- Ecs in *. assert (Hne : cs <> []) by (rewrite Ecs; discriminate). clear Ecs.
+  unfold prefixes in H. rewrite psplit_slcat in H by assumption. cbn [filter beq negb] in H.
+  assert (Hf : filter (fun x => negb (beq x [])) cs = cs).
+  { apply filter_nonempty_id. eapply Forall_impl; [|exact Hp]. intros a (Ha & _). exact Ha. }
+  rewrite Hf in H. destruct (prefixes_acc_in _ _ _ H) as (k & Hk & ->). cbn [app].
+  rewrite <- (firstn_skipn (S k) cs) at 2.
+  assert (Hfp : Forall plain (firstn (S k) cs)).
+  { apply Forall_forall. intros a Ha. rewrite Forall_forall in Hp. apply Hp.
+    rewrite <- (firstn_skipn (S k) cs). apply in_or_app. now left. }
+  assert (Hfne : firstn (S k) cs <> []) by (destruct cs; [congruence|discriminate]).
+  destruct (skipn (S k) cs) as [|y ys] eqn:Es.
+  - rewrite app_nil_r. apply at_or_under_refl.
+  - apply under_at_or_under, under_slcat; try assumption. discriminate.
+Qed.
+
+(* ------------------------------------------------------------------ path.Dir *)
+Lemma lss_noslash n : nosep sl n -> forall cur acc found,
+  last_slash_split n cur acc found = (found, acc, rev cur ++ n).
+Proof.
+  induction n as [|ch r IH]; intros Hn cur acc found; cbn [last_slash_split].
+  - rewrite app_nil_r. reflexivity.
+  - destruct (Ascii.eqb ch sl) eqn:E.
+    + exfalso. apply Ascii.eqb_eq in E. subst. apply Hn. now left.
+    + rewrite IH by (intros Hin; apply Hn; now right). cbn [rev]. rewrite <- app_assoc. reflexivity.
+Qed.
+
+Lemma lss_spec n : nosep sl n -> forall d cur acc found, exists accf,
+  last_slash_split (d ++ sl :: n) cur acc found = (true, accf, n)
+  /\ rev accf = rev acc ++ rev cur ++ d ++ [sl].
+Proof.
+  intros Hn. induction d as [|ch d IH]; intros cur acc found.
+  - cbn [app last_slash_split]. rewrite Ascii.eqb_refl. rewrite lss_noslash by exact Hn.
+    eexists. split; [reflexivity|]. cbn [rev]. rewrite rev_app_distr. cbn [app]. rewrite <- app_assoc. reflexivity.
+  - cbn [app last_slash_split]. destruct (Ascii.eqb ch sl) eqn:E.
+    + apply Ascii.eqb_eq in E. subst ch. destruct (IH [] (sl :: cur ++ acc) true) as (accf & H1 & H2).
+      exists accf. split; [exact H1|]. rewrite H2. cbn [rev]. rewrite rev_app_distr.
+      cbn [app]. rewrite <- !app_assoc. reflexivity.
+    + destruct (IH (ch :: cur) acc found) as (accf & H1 & H2).
+      exists accf. split; [exact H1|]. rewrite H2. cbn [rev]. rewrite <- !app_assoc. reflexivity.
+Qed.
+
+Lemma pathsplit_last d n : nosep sl n -> pathsplit (d ++ sl :: n) = (d ++ [sl], n).
+Proof.
+  intros Hn. unfold pathsplit. destruct (lss_spec n Hn d [] [] false) as (accf & H1 & H2).
+  rewrite H1. rewrite H2. reflexivity.
+Qed.
+
+Lemma pathdir_slcat cs n : cs <> [] -> Forall plain cs -> plain n ->
+  pathdir (slcat (cs ++ [n])) = slcat cs.
+Proof.
+  intros Hne Hp Hn. rewrite slcat_app. cbn [slcat flat_map]. rewrite app_nil_r.
+  unfold pathdir. rewrite pathsplit_last by (apply plain_noslash, Hn). cbn [fst].
+  fold (slcat cs).
+  assert (Hnz : slcat cs ++ [sl] <> []) by (destruct (slcat cs); discriminate).
+  assert (Hr : is_rooted (slcat cs ++ [sl]) = true).
+  { destruct cs; [congruence|]. reflexivity. }
+  rewrite clean_unfold by exact Hnz. rewrite Hr. unfold cstack. rewrite Hr.
+  unfold psplit. rewrite split_app_sep. fold psplit. rewrite psplit_slcat by assumption.
+  assert (Hps : psplit (@nil ascii) = [[]]) by reflexivity. rewrite Hps.
+  assert (Hnil : forall st, stepc true st [] = st) by reflexivity.
+  rewrite fold_left_app. cbn [fold_left]. rewrite !Hnil.
+  rewrite fold_plain by exact Hp. rewrite app_nil_r.
+  rewrite rev_involutive. cbn [assemble]. apply slcat_pjoin, Hne.
+Qed.
